@@ -176,6 +176,24 @@ def run(cx: Cx):
     # get_random_agent / shuffle draw from the get_agents list: C13 (R-FWD) - referenced, not repeated
 
     # ------------------------------------------------------------ clause 4: batch workers
+    bm = cx.fn(BATCH + '_build_model_from_kwargs')
+    from sa.walker import _Ctx, State
+    kw = Sym(bm.params[1]) if len(bm.params) > 1 else None
+    okb = False
+    for p in cx.walker.paths(bm, WalkOptions(unroll=1, callee_raises=False)):
+        v = p.last.data.get('value') if p.end == 'return' else None
+        if isinstance(v, App) and dict(v.kw).get('**') == kw and not v.args[1:] and \
+                (v.fn == 'call' or v.fn.startswith('new:')):
+            okb = True
+        else:
+            okb = False
+            cx.violation('R-ENTROPY', bm.qualname, 'model-built-from-the-passed-kwargs-unchanged',
+                         f"_build_model_from_kwargs returns {v!r}: the model must be built as model_cls(**kwargs) from exactly the "
+                         f"combination it was given (a dropped or rewritten `seed` makes the run unseeded)", where=cx.where(bm))
+            break
+    if okb:
+        cx.ok('R-ENTROPY', '_build_model_from_kwargs == model_cls(**kwargs), kwargs unchanged', where=cx.where(bm), function=bm.qualname)
+
     for q in (BATCH + '_run_model_for_batch', BATCH + '_run_model_for_search', BATCH + '_build_model_from_kwargs'):
         f = cx.fn(q)
         mod = f.module
